@@ -121,3 +121,29 @@ Proof.
     destruct (240 + r / 262144 =? 240) eqn:A, (240 + r / 262144 =? 244) eqn:B;
     match goal with |- (if ?c then _ else _) = _ => replace c with true by lia end; f_equal; lia. }
 Qed.
+
+(* ---- used by the buffer proofs (C19) ---- *)
+Lemma decode_width4 s r w : decode_rune s = (r, w) -> s <> [] ->
+  (1 <= w <= length s)%nat /\ (w <= 4)%nat.
+Proof.
+  unfold decode_rune. destruct s as [|b0 t]; [congruence|]. intros H _.
+  repeat match type of H with
+  | (if ?c then _ else _) = _ => destruct c
+  | (match ?t with _ => _ end) = _ => destruct t
+  | (let _ := _ in _) = _ => cbv zeta in H
+  end; inversion H; subst; cbn [length]; lia.
+Qed.
+
+(* a byte below RuneSelf decodes to itself, width 1 *)
+Lemma decode_ascii b t : bz b <? 128 = true -> decode_rune (b :: t) = (bz b, 1%nat).
+Proof. intros H. unfold decode_rune. rewrite H. reflexivity. Qed.
+
+(* AppendRune writes between 1 and UTFMax bytes *)
+Lemma encode_len r : (1 <= length (encode_rune r) <= 4)%nat.
+Proof.
+  unfold encode_rune.
+  repeat match goal with |- context [if ?c then _ else _] => destruct c end; cbn [length]; lia.
+Qed.
+
+Lemma encode_ascii r : (0 <=? r) && (r <? 128) = true -> encode_rune r = [zb r].
+Proof. intros H. unfold encode_rune. rewrite H. reflexivity. Qed.
